@@ -732,25 +732,60 @@ func closureReleases(cf *ssa.Function, bi int, releaseArg func(ssa.Instruction) 
 	}
 	fv := cf.FreeVars[bi]
 	d := cfgutil.Derived(fv)
+	// must-analysis: on every path to a return the object was released, or was found to be nil
+	has := map[*ssa.BasicBlock]bool{}
+	any := false
 	for _, b := range cf.Blocks {
 		for _, x := range b.Instrs {
 			if arg, ok := releaseArg(x); ok && d[arg] {
-				// must dominate all returns
-				all := true
-				for _, bb := range cf.Blocks {
-					for _, y := range bb.Instrs {
-						if ret, ok := y.(*ssa.Return); ok && !instrDominates(x, ret) {
-							all = false
-						}
-					}
-				}
-				if all {
-					return true
-				}
+				has[b] = true
+				any = true
 			}
 		}
 	}
-	return false
+	if !any {
+		return false
+	}
+	nilEdge := func(from, to *ssa.BasicBlock) bool {
+		ifi, ok := from.Instrs[len(from.Instrs)-1].(*ssa.If)
+		if !ok || from.Succs[0] == from.Succs[1] {
+			return false
+		}
+		bo, isBo := ifi.Cond.(*ssa.BinOp)
+		if !isBo || (bo.Op != token.EQL && bo.Op != token.NEQ) {
+			return false
+		}
+		if !(isNilConstV(bo.Y) && d[bo.X] || isNilConstV(bo.X) && d[bo.Y]) {
+			return false
+		}
+		return (bo.Op == token.EQL) == (from.Succs[0] == to)
+	}
+	out := map[*ssa.BasicBlock]bool{}
+	for _, b := range cf.Blocks {
+		out[b] = true
+	}
+	for changed := true; changed; {
+		changed = false
+		for _, b := range cf.Blocks {
+			v := len(b.Preds) > 0
+			for _, pb := range b.Preds {
+				if !(out[pb] || nilEdge(pb, b)) {
+					v = false
+				}
+			}
+			v = v || has[b]
+			if v != out[b] {
+				out[b] = v
+				changed = true
+			}
+		}
+	}
+	for _, b := range cf.Blocks {
+		if _, isRet := b.Instrs[len(b.Instrs)-1].(*ssa.Return); isRet && b != cf.Recover && !out[b] {
+			return false
+		}
+	}
+	return true
 }
 
 // ruleKeySource: O-KEYSOURCE.
